@@ -4,7 +4,7 @@
 \* the INVARIANT line: the driver runs it with CompleteLast (must fail: a ping parked on mu gets in
 \* between) and with NoRace / NoSplice / NoUseAfterFinish / InOrder / PreFirst (must hold).
 \* measured: CompleteLast counterexample of 13 states (n = 0: Tick while `complete` is written, KPingBegin right after its MFlushEnd), < 2 s;
-\* the other run: 10,439 distinct states, no error.
+\* the other run (round 3: + SseFailed NoGarbage, a payload that cannot be serialized at positions 0..2): 16,621 distinct states, no error.
 INIT Init
 NEXT Next
 CONSTANTS
